@@ -327,7 +327,7 @@ Proof.
   intros id0 h E. destruct (J3 id0 h E) as (A & B). split; [exact A|lia].
 Qed.
 
-Lemma LInv_exec_msg c s txh m s' : exec_msg c s txh m = Okk s' -> LInv false s -> LInv false s'.
+Lemma LInv_exec_msg c s txh m s' : exec_msg_plain c s txh m = Okk s' -> LInv false s -> LInv false s'.
 Proof.
   intros H Hinv. destruct m; simpl in H.
   - unfold define in H. eapply LInv_same; [|exact Hinv]. repeat dmn H; inversion H; subst; repeat split.
@@ -350,11 +350,14 @@ Proof.
   - unfold withdraw in H. eapply LInv_same; [|exact Hinv]. repeat dmn H; inversion H; subst; repeat split.
 Qed.
 
-Lemma LInv_apply c s st : QInv s -> BatchInv s -> LInv false s -> LInv false (apply c s st).
+Lemma LInv_apply c s st : c_msvc c < 0 -> QInv s -> BatchInv s -> LInv false s -> LInv false (apply c s st).
 Proof.
-  intros Hq Hb Hinv. unfold apply. destruct (exec_step c s st) as [s'| |] eqn:E; try exact Hinv.
-  destruct st; simpl in E.
-  - eapply LInv_exec_msg; eassumption.
+  intros Hm Hq Hb Hinv. unfold apply. destruct (exec_step c s st) as [s'| |] eqn:E; try exact Hinv.
+  destruct st; cbn [exec_step] in E.
+  9: { change (exec_msg_plain c s 0 (MBind svc prov depd depa pr qos true owner) = Okk s') in E.
+       eapply LInv_exec_msg; eassumption. }
+  all: simpl in E.
+  - rewrite (exec_msg_plain_eq _ _ _ _ Hm) in E. eapply LInv_exec_msg; eassumption.
   - destruct (0 <=? dt); [|discriminate]. inversion E; subst. apply LInv_end_block; assumption.
   - inversion E; subst. eapply LInv_same; [|exact Hinv]. repeat split.
   - eapply LInv_same; [|exact Hinv]. repeat dmn E; inversion E; subst; repeat split.
@@ -373,18 +376,19 @@ Proof. constructor; simpl; intros; discriminate. Qed.
 
 Theorem outcome_by_expiry_lemma :
   forall c steps h0 t0 l0,
+    c_msvc c < 0 ->
     fresh_history c (init h0 t0 l0) steps ->
     let s := run c (init h0 t0 l0) steps in
     forall rid q, get rid (reqs s) = Some q ->
       (q_active q = true -> height s <= q_exp q)
       /\ (q_active q = false -> In rid (map fst (g_out s))).
 Proof.
-  intros c steps h0 t0 l0 Hf s.
+  intros c steps h0 t0 l0 Hm Hf s.
   assert (G : (QInv s /\ BatchInv s) /\ LInv false s).
   { subst s. apply (run_inv_fresh (fun t => (QInv t /\ BatchInv t) /\ LInv false t) c); [|exact Hf|split; [apply SInv_init|apply LInv_init]].
-    intros t st Hfr ((Tq & Tb) & Tl). split; [apply (SInv_apply c t st Hfr (conj Tq Tb))|apply LInv_apply; assumption]. }
+    intros t st Hfr ((Tq & Tb) & Tl). split; [apply (SInv_apply c t st Hm Hfr (conj Tq Tb))|apply LInv_apply; assumption]. }
   destruct G as ((Q & B) & L). intros rid q Hg. split.
-  - intros Ha. pose proof (l_exp _ _ L rid q Hg Ha) as Hm. destruct (l_mark _ _ L _ _ Hm) as (_ & Hh). exact Hh.
+  - intros Ha. pose proof (l_exp _ _ L rid q Hg Ha) as Hmk. destruct (l_mark _ _ L _ _ Hmk) as (_ & Hh). exact Hh.
   - intros Ha. exact (l_log _ _ L rid q Hg Ha).
 Qed.
 
